@@ -3,8 +3,11 @@
 import os
 import sys
 
+# VERIF_REPO_SRC: testing aid only (run the check against a scratch copy of the sources, e.g. a seeded mutant);
+# evidence is then written under .work/ instead of evidence/.  Registered commands never set it.
+SRC = os.environ.get("VERIF_REPO_SRC", "/repo/src")
 ENV = {
-    "PYTHONPATH": "/repo/src",
+    "PYTHONPATH": SRC,
     "PYTHONHASHSEED": "0",
     "MPLBACKEND": "Agg",
     "PYTHONDONTWRITEBYTECODE": "1",
@@ -17,7 +20,7 @@ if any(os.environ.get(k) != v for k, v in ENV.items()):
     os.environ.update(ENV)
     os.execv("/venv/bin/python", ["/venv/bin/python"] + sys.argv)
 
-sys.path.insert(0, "/repo/src")
+sys.path.insert(0, SRC)
 sys.path.insert(0, os.path.dirname(os.path.abspath(__file__)))
 import argparse
 import importlib
@@ -45,7 +48,7 @@ def main():
     try:
         import pyoma2  # noqa: F401
 
-        assert pyoma2.__file__.startswith("/repo/src"), pyoma2.__file__
+        assert pyoma2.__file__.startswith(SRC), pyoma2.__file__
         if not a.no_proof:
             ctx.proof_step()
         mod.run(ctx)
